@@ -149,6 +149,8 @@ Inv_C15_replay ==
 (* real code by the harness, which compares logs and final chips.          *)
 (***************************************************************************)
 EmitBehaviours == "EMIT" \in DOMAIN IOEnv /\ IOEnv.EMIT = "1"
-Emit == (EmitBehaviours /\ KeepHist /\ (~S.status \/ S.fault # "")) =>
+\* on the big instances only a random 1/K of the terminal histories is printed (EMITK = "10" / "100")
+EmitK == IF "EMITK" \in DOMAIN IOEnv THEN (CASE IOEnv.EMITK = "10" -> 10 [] IOEnv.EMITK = "100" -> 100 [] OTHER -> 1) ELSE 1
+Emit == (EmitBehaviours /\ KeepHist /\ (~S.status \/ S.fault # "") /\ (EmitK = 1 \/ RandomElement(1..EmitK) = 1)) =>
            PrintT(<<"BEH", ToJson([cid |-> cid, did |-> did, log |-> full, stacks |-> S.stacks, status |-> S.status, fault |-> S.fault])>>)
 =============================================================================
